@@ -67,7 +67,7 @@ def lib_sources():
 class Variant:
     """A build variant: '<base>[+mod]*'.
     base: prod | asan | msan | tsan | clang | tsanclang | asanclang | gcc
-    mods: W32 UNAL0 NEUTRAL NOSIMD NOAVX2 O0 O1 O2 O3 Os"""
+    mods: W32 UNAL0 NEUTRAL NOSIMD NOAVX2 NOBUILTIN O0 O1 O2 O3 Os"""
 
     def __init__(self, name):
         self.name = name
@@ -75,6 +75,7 @@ class Variant:
         self.base = parts[0]
         self.mods = parts[1:]
         self.cfg = {}
+        self.nobuiltin = False
         opt = None
         for m in self.mods:
             if m == "W32": self.cfg["64BIT"] = 0
@@ -82,6 +83,7 @@ class Variant:
             elif m == "NEUTRAL": self.cfg.update({"LITTLE_ENDIAN": 0, "VEC128_MATH": 0, "VEC256_MATH": 0})
             elif m == "NOSIMD": self.cfg.update({"VEC128_MATH": 0, "VEC256_MATH": 0})
             elif m == "NOAVX2": self.cfg["VEC256_MATH"] = 0
+            elif m == "NOBUILTIN": self.nobuiltin = True     # memcpy/memset stay calls, so sanitizer interceptors see them
             elif re.fullmatch(r"O[0123s]", m): opt = "-" + m
             else: raise HarnessError("unknown variant modifier " + m)
         mak = options_mak()
@@ -117,7 +119,7 @@ class Variant:
 
     def lib_flags(self, src):
         mak = options_mak()
-        fl = list(self.opt) + self.dbg + self.common + mak["STDC"] + self.san + self.defs
+        fl = list(self.opt) + self.dbg + self.common + mak["STDC"] + self.san + self.defs + (["-fno-builtin"] if self.nobuiltin else [])
         if "vec256" in src:
             fl = mak["V256"] + fl
         elif "vec128" in src:
